@@ -81,6 +81,9 @@ func (r *Run) merge(d *childDump) {
 		}
 	}
 	r.inconclusive += d.Inconclusive
+	for k, v := range d.Notes {
+		r.notes[k] = v
+	}
 	r.broken = append(r.broken, d.Broken...)
 	r.mu.Unlock()
 	for _, v := range d.Violations {
